@@ -28,6 +28,8 @@ type nodeJ struct {
 	Name  string   `json:"name"`
 	Cap   ckit.Res `json:"cap"`
 	Usage ckit.Res `json:"usage"`
+	// complete capacity record of the plugin (cpu map, cpu→NUMA map, NUMA memory incl. zero entries, memory)
+	CapSig string `json:"capsig"`
 }
 type wlJ struct {
 	ID   int      `json:"id"`
@@ -123,7 +125,7 @@ func (w *world) snap() snapJ {
 	s := w.cl.Snapshot()
 	out := snapJ{Nodes: []nodeJ{}, Wls: []wlJ{}, Cts: []ctJ{}, Markers: []markerJ{}, Wal: []walJ{}}
 	for _, n := range s.Nodes {
-		out.Nodes = append(out.Nodes, nodeJ{Name: n.Name, Cap: n.Cap, Usage: n.Usage})
+		out.Nodes = append(out.Nodes, nodeJ{Name: n.Name, Cap: n.Cap, Usage: n.Usage, CapSig: n.CapSig})
 		out.Diffs = append(out.Diffs, n.Diffs...)
 	}
 	// unseen ids get numbers in a deterministic order (sorted real id) unless the caller numbered them before
@@ -357,6 +359,15 @@ func (w *world) exec(o op, plan ckit.Plan) outcome {
 				}
 				if c := o.i("cpu"); c != 0 {
 					raw["cpu"] = c
+				}
+				if c := o.s("cpu_list"); c != "" { // per-core shares, e.g. "0:50,4:100"
+					raw["cpu"] = c
+				}
+				if nc := o.strs("numa_cpu"); len(nc) > 0 {
+					raw["numa-cpu"] = nc
+				}
+				if nm := o.strs("numa_mem"); len(nm) > 0 {
+					raw["numa-memory"] = nm
 				}
 				so := &types.SetNodeOptions{Nodename: o.s("node"), Delta: o.b("delta"), Bypass: types.TriKeep}
 				if len(raw) > 0 {
@@ -661,7 +672,13 @@ func (w *world) analyse(o op, out *outcome, pre snapJ, ifault *ckit.Addr) (args 
 	case "removenode":
 		args = map[string]any{"node": o.s("node")}
 	case "setnode":
-		args = map[string]any{"node": o.s("node"), "newCap": nil} // newCap filled by setCap from the fault-free twin
+		refused := false
+		for _, e := range tr {
+			if e.Kind == "pluginSetCapacity" && e.Ord == 0 && e.Failed && !e.Injected {
+				refused = true // the plugin rejects the request itself
+			}
+		}
+		args = map[string]any{"node": o.s("node"), "newCap": nil, "refused": refused} // newCap filled by setCap from the fault-free twin
 	}
 	return args, mfault
 }
@@ -677,7 +694,7 @@ func setCap(o op, args map[string]any, twinPost snapJ) {
 		}
 		return
 	}
-	if o.s("op") != "setnode" || (o.i("mem") == 0 && o.i("cpu") == 0) {
+	if o.s("op") != "setnode" || (o.i("mem") == 0 && o.i("cpu") == 0 && o.s("cpu_list") == "" && len(o.strs("numa_cpu")) == 0 && len(o.strs("numa_mem")) == 0) {
 		return
 	}
 	for _, n := range twinPost.Nodes {
@@ -898,8 +915,36 @@ func (g *gen) nextOp(pre snapJ, only string) op {
 			}
 			return o
 		case "setnode":
-			o["node"] = cur[r.Intn(len(cur))].Name
-			switch r.Intn(4) {
+			sp := cur[r.Intn(len(cur))]
+			o["node"] = sp.Name
+			half := sp.CPU / 2
+			lo, hi := []string{}, []string{}
+			for c := 0; c < sp.CPU; c++ {
+				if c < half {
+					lo = append(lo, fmt.Sprint(c))
+				} else {
+					hi = append(hi, fmt.Sprint(c))
+				}
+			}
+			switch r.Intn(8) {
+			case 4: // NUMA layout and NUMA memory, as a delta or as an absolute request
+				o["numa_cpu"] = []string{strings.Join(lo, ","), strings.Join(hi, ",")}
+				o["numa_mem"] = []string{fmt.Sprint(r.Range(1, 4) * 64 * mib), fmt.Sprint(r.Range(1, 4) * 64 * mib)}
+				o["delta"] = r.Chance(60)
+			case 5: // NUMA memory only
+				o["numa_mem"] = []string{fmt.Sprint(r.Range(1, 4) * 64 * mib), fmt.Sprint(r.Range(1, 4) * 64 * mib)}
+				o["delta"] = r.Chance(60)
+			case 6: // per-core shares: one more core / more pieces on core 0 (delta), or a rewritten core list
+				if r.Chance(50) {
+					o["cpu_list"] = fmt.Sprintf("0:%d,%d:100", hx.Pick(r, 50, 100), sp.CPU)
+					o["delta"] = true
+				} else {
+					o["cpu_list"] = fmt.Sprintf("0:%d,1:100", hx.Pick(r, 100, 200))
+				}
+			case 7: // NUMA layout together with memory
+				o["numa_cpu"] = []string{strings.Join(lo, ","), strings.Join(hi, ",")}
+				o["mem"] = r.Range(1, 4) * 128 * mib
+				o["delta"] = true
 			case 0:
 				o["mem"] = r.Range(1, 8) * 128 * mib
 				o["delta"] = true
@@ -1053,6 +1098,9 @@ func (d *driver) corpus() {
 		op{"op": "realloc", "id": 1, "mem": 64 * mib},
 		op{"op": "replace", "id": 2, "app": "app0"},
 		op{"op": "setnode", "node": "n1", "mem": 256 * mib, "delta": true},
+		op{"op": "setnode", "node": "n0", "delta": true, "numa_cpu": []string{"0,1", "2,3"}, "numa_mem": []string{fmt.Sprint(256 * mib), fmt.Sprint(256 * mib)}},
+		op{"op": "setnode", "node": "n1", "numa_cpu": []string{"0", "1"}, "numa_mem": []string{fmt.Sprint(128 * mib), fmt.Sprint(128 * mib)}},
+		op{"op": "setnode", "node": "n1", "delta": true, "cpu_list": "0:50,2:100"},
 		op{"op": "remove", "ids": []int{1}},
 		op{"op": "dissociate", "ids": []int{3}},
 		op{"op": "addnode", "node": "x1", "pod": "p0", "cpu": 2, "mem": 512 * mib},
